@@ -1,5 +1,6 @@
 import Holpy.C17.Proofs
 import Holpy.C17.ExplainProofs
+import Holpy.C17.CompleteFinal
 /-
 C17 — property theorems about the model of `prover/congc.py: CongClosure` (`Model.lean`).
 `run ops` is the structure after the operations `ops` (`add_var` / `merge(a, b)` /
@@ -43,5 +44,77 @@ theorem explain_uses_inputs (ops : List Op) (a b : Cst) (res : Res)
 /- non-vacuity: the explanation of 3 = 6 lists both application equations and both constant equations. -/
 example : explainTop (run [.mergeF 1 2 3, .mergeF 4 5 6, .mergeC 1 4, .mergeC 2 5]) 3 6 =
     .ok [((1, 4), [.const 1 4]), ((2, 5), [.const 2 5]), ((3, 6), [.comb ⟨1, 2, 3⟩ ⟨4, 5, 6⟩])] := by rfl
+
+/-- `_propagate` always runs to completion within the model's fuel: after every public call
+(`add_var`, both forms of `merge`) the queue `pending` is empty. -/
+theorem pending_empty_after_merge (ops : List Op) : (run ops).pending = [] :=
+  run_pending_nil ops
+
+example : (run [.mergeF 1 2 3, .mergeF 4 5 6, .mergeC 1 4, .mergeC 2 5]).pending = [] := by rfl
+
+/-- `test` is complete: whenever `a = b` follows from the merged equations by reflexivity,
+symmetry, transitivity and congruence (and both constants were entered, so that `test` does not
+raise KeyError), `test(a, b)` answers `True`. -/
+theorem test_complete (ops : List Op) (a b : Cst) (ha : entered ops a) (hb : entered ops b)
+    (h : Cl (eqsOf ops) a b) : test (run ops) a b = .ok true :=
+  test_complete_of (run_complete ops) (run_pending_nil ops) (run_dom ops ha) (run_dom ops hb) h
+
+/- non-vacuity: 3 = 6 follows by congruence from f(1,2)=3, f(4,5)=6, 1=4, 2=5 (all four are needed). -/
+example : Cl (eqsOf [.mergeF 1 2 3, .mergeF 4 5 6, .mergeC 1 4, .mergeC 2 5]) 3 6 :=
+  .cong (a1 := 1) (a2 := 2) (b1 := 4) (b2 := 5) (by simp [eqsOf]) (by simp [eqsOf])
+    (.base (by simp [eqsOf])) (.base (by simp [eqsOf]))
+
+/-- `test` raises KeyError exactly for constants that were never entered; otherwise it answers. -/
+theorem test_defined_iff_entered (ops : List Op) (a b : Cst) :
+    (∃ v, test (run ops) a b = .ok v) ↔ (entered ops a ∧ entered ops b) := by
+  constructor
+  · rintro ⟨v, hv⟩
+    have K := run_keysIn ops
+    by_cases ha : Dom (run ops) a
+    · by_cases hb : Dom (run ops) b
+      · exact ⟨K.rep a ha, K.rep b hb⟩
+      · rw [test_error_of_not_dom (.inr hb)] at hv; cases hv
+    · rw [test_error_of_not_dom (.inl ha)] at hv; cases hv
+  · rintro ⟨ha, hb⟩
+    exact test_ok_of_dom (run_dom ops ha) (run_dom ops hb)
+
+example : test (run [.mergeC 1 2]) 1 3 = .error .key := by rfl
+
+/-- The answer of `test` does not depend on the order in which equations were merged or terms
+added (nor on repetitions): two operation sequences with the same members give the same answer
+to every query, including the KeyError for constants never entered. -/
+theorem order_independent (ops1 ops2 : List Op) (hperm : ∀ op, op ∈ ops1 ↔ op ∈ ops2) (a b : Cst) :
+    test (run ops1) a b = test (run ops2) a b := by
+  have hE : ∀ q, eqsOf ops1 q ↔ eqsOf ops2 q := by
+    intro q; cases q <;> simp only [eqsOf] <;> exact hperm _
+  have hD : ∀ c, entered ops1 c ↔ entered ops2 c := by
+    intro c
+    constructor
+    · rintro ⟨op, h1, h2⟩; exact ⟨op, (hperm op).1 h1, h2⟩
+    · rintro ⟨op, h1, h2⟩; exact ⟨op, (hperm op).2 h1, h2⟩
+  by_cases hab : entered ops1 a ∧ entered ops1 b
+  · have hab2 : entered ops2 a ∧ entered ops2 b := ⟨(hD a).1 hab.1, (hD b).1 hab.2⟩
+    obtain ⟨v1, h1⟩ := (test_defined_iff_entered ops1 a b).2 hab
+    obtain ⟨v2, h2⟩ := (test_defined_iff_entered ops2 a b).2 hab2
+    rw [h1, h2]
+    congr 1
+    cases v1 <;> cases v2 <;> try rfl
+    · have := test_complete ops1 a b hab.1 hab.2 ((Cl.congr_set hE).2 (test_sound ops2 a b h2))
+      rw [h1] at this; cases this
+    · have := test_complete ops2 a b hab2.1 hab2.2 ((Cl.congr_set hE).1 (test_sound ops1 a b h1))
+      rw [h2] at this; cases this
+  · have e1 : test (run ops1) a b = .error .key := by
+      cases h : test (run ops1) a b with
+      | ok v => exact absurd ((test_defined_iff_entered ops1 a b).1 ⟨v, h⟩) hab
+      | error e => cases e <;> first | rfl | (simp [test] at h; split at h <;> simp at h)
+    have hab2 : ¬ (entered ops2 a ∧ entered ops2 b) := fun h => hab ⟨(hD a).2 h.1, (hD b).2 h.2⟩
+    have e2 : test (run ops2) a b = .error .key := by
+      cases h : test (run ops2) a b with
+      | ok v => exact absurd ((test_defined_iff_entered ops2 a b).1 ⟨v, h⟩) hab2
+      | error e => cases e <;> first | rfl | (simp [test] at h; split at h <;> simp at h)
+    rw [e1, e2]
+
+/- non-vacuity: the reversed sequence has the same members; both answer `True` for (3, 6). -/
+example : test (run [.mergeC 2 5, .mergeC 1 4, .mergeF 4 5 6, .mergeF 1 2 3]) 3 6 = .ok true := by rfl
 
 end Holpy.C17
